@@ -50,7 +50,8 @@ def acquisition(run, fi):
 def r08_1(run, mode_label, assume_switch):
     fi = anchor_func(run, OP)
     assume = switch_assumptions(fi, **assume_switch)
-    cfg = build_cfg(run, fi, assume)
+    from .util import op_instance_call
+    cfg = build_cfg(run, fi, assume, extra_raise=lambda c: op_instance_call(run, fi, c))
     run.count("cfg_nodes", cfg.g.number_of_nodes())
     run.count("cfg_edges", cfg.g.number_of_edges())
     acq_stmt, coll, _ = acquisition(run, fi)
@@ -388,7 +389,9 @@ def r08_5(run):
              and isinstance(s.left, ast.Name) and s.left.id in counter_names and len(s.ops) == 1
              and isinstance(s.ops[0], ast.Eq) and isinstance(s.comparators[0], ast.Constant) and s.comparators[0].value == 1]
     if not tests:
-        raise AnalysisError(f"{relf.short}: cannot find the `count == 1` test")
+        run.ob("R08.5", loc(relf, relf.node), relf.short, "a `count == 1` (last holder) test guards the unlock", False,
+               "no test of the form `<count> == 1` on the value read from _array_counter: the array can be made writeable while other "
+               "live ops still hold a lock on it")
     for n in own_nodes(relf.node):
         if isinstance(n, ast.Assign) and any(isinstance(t, ast.Attribute) and t.attr == "writeable" for t in n.targets) \
                 and isinstance(n.value, ast.Constant) and n.value.value is True:
